@@ -4,6 +4,7 @@
 The property argument selects which clauses of the verdict decide the exit status."""
 import json
 import multiprocessing as mp
+import multiprocessing.pool
 import os
 
 from . import tlc, c01
@@ -150,3 +151,100 @@ def run(ctx, prop):
         tb = generate(ctx, "ExprGenSim_big.cfg", "simbig", simulate="num=400", depth=8, thresholds=(0, 6))
         validate(ctx, tb, prop, "big")
     ctx.exhaustive = False
+    hook_traces(ctx, prop)
+
+
+# ---- code -> spec through the guarded hooks -----------------------------------------------------------
+ISAS = ["amoco.arch.x64.cpu_x64", "amoco.arch.x86.cpu_x86", "amoco.arch.riscv.rv32i.cpu_rv32i",
+        "amoco.arch.riscv.rv64i.cpu_rv64i", "amoco.arch.arm.cpu_armv7", "amoco.arch.arm.cpu_armv8",
+        "amoco.arch.sparc.cpu_v8", "amoco.arch.mips.cpu_r3000", "amoco.arch.msp430.cpu",
+        "amoco.arch.z80.cpu_z80", "amoco.arch.tricore.cpu", "amoco.arch.v850.cpu_v850e2s",
+        "amoco.arch.superh.cpu_sh2", "amoco.arch.pic.cpu_pic18", "amoco.arch.w65c02.cpu",
+        "amoco.arch.eBPF.cpu"]
+
+
+def _validate_op(args):
+    path, tag = args
+    return tlc.run("ExprOpTrace", "ExprOpTrace.cfg", workers=1, env={"TRACE_FILE": path}, tag=tag,
+                   timeout=6000, xmx="3g", xss="1g")
+
+
+def hook_traces(ctx, prop):
+    import subprocess
+    import sys
+    quick = ctx.tier == "quick"
+    repo = os.environ.get("VERIF_REPO", "/repo")
+    wd = tlc.workdir("c01hook")
+    env = dict(os.environ)
+    env.update({"AMOCO_VERIF": "1", "PYTHONHASHSEED": "0", "VERIF_SEED": str(ctx.seed),
+                "PYTHONPATH": "%s:%s" % (repo, tlc.VERIF), "AMOCO_VERIF_MAXEV": "4000" if quick else "40000"})
+    files = []
+    # (1) the repository's own test-suite, guard on
+    f1 = os.path.join(wd, "suite.ndjson")
+    e1 = dict(env)
+    e1["AMOCO_VERIF_TRACE"] = f1
+    p = subprocess.run([sys.executable, "-m", "pytest", "-q", "-x", "-p", "harness.c01hook", "-p", "no:cacheprovider",
+                        "--timeout=900", "tests"], cwd=repo, env=e1, stdout=subprocess.PIPE, stderr=subprocess.STDOUT)
+    ctx.note("suite_with_hooks_exit", p.returncode)
+    if os.path.exists(f1):
+        files.append(("suite", f1))
+    # (2) ISA driver: symbolic execution of decoded instructions, one process per ISA
+    procs = []
+    n = 150 if quick else 2500
+    for k, isa in enumerate(ISAS):
+        fk = os.path.join(wd, "isa%d.ndjson" % k)
+        procs.append((isa, fk, subprocess.Popen([sys.executable, "-m", "harness.c01hook", fk, str(ctx.seed * 131 + k),
+                                                  str(n), isa], cwd=tlc.VERIF, env=env,
+                                                 stdout=subprocess.PIPE, stderr=subprocess.DEVNULL)))
+    for isa, fk, pr in procs:
+        pr.wait()
+        if os.path.exists(fk):
+            files.append((isa.split(".")[-1], fk))
+    events = []
+    for src, f in files:
+        for line in open(f):
+            line = line.strip()
+            if line:
+                e = json.loads(line)
+                e["src"] = src
+                events.append(e)
+    if not events:
+        raise tlc.MachineryError("hooks recorded no event (guard not effective?)")
+    for i, e in enumerate(events):
+        e["t"] = i + 1
+    nsh = min(tlc.NCPU, max(1, len(events) // 50))
+    shards = [events[i::nsh] for i in range(nsh)]
+    paths = []
+    for i, sh in enumerate(shards):
+        pth = os.path.join(wd, "ev%d.ndjson" % i)
+        tlc.write_ndjson(pth, sh)
+        paths.append((pth, "c01H%d" % i))
+    with mp.pool.ThreadPool(len(paths)) as tp:
+        results = tp.map(_validate_op, paths)
+    verdicts = {}
+    for res in results:
+        ctx.add_tlc(res, "T:ExprOpTrace")
+        for v in res.printed:
+            verdicts[v["t"]] = v
+    skipped = 0
+    for e in events:
+        v = verdicts.get(e["t"])
+        if v is None:
+            raise tlc.MachineryError("no verdict for hook event %s" % e["t"])
+        if v[prop] == "skip":
+            skipped += 1
+            continue
+        ctx.case(key=("hook", e["src"], e["ev"], e.get("s", ""), e["res"].get("k")))
+        ctx.trace()
+        brief = {"src": e["src"], "ev": e["ev"], "s": e.get("s", ""), "raised": e["raised"],
+                 "ops": json.dumps(e["ops"])[:700]}
+        if prop == "C01" and v.get("dev"):
+            ctx.fail("C01:dev:" + v["dev"], DEV_WHAT.get(v["dev"], v["dev"]), {"event": e})
+        if v[prop] != "ok":
+            ctx.fail("%s:hook:%s:%s" % (prop, v[prop], e.get("s", e["ev"])),
+                     "recorded %s call (%s): clause %s: %s" % (e["ev"], e["src"], v[prop], json.dumps(brief)[:900]),
+                     {"event": e})
+    ctx.count("hook_events_validated", len(events) - skipped)
+    ctx.count("hook_events_outside_claim", skipped)
+    ctx.sample({"source": "hook event", "event": {k: events[0][k] for k in ("src", "ev", "ops", "res") if k in events[0]}}, cap=8)
+    tlc.cleanup(wd)
